@@ -155,6 +155,49 @@ def tool_cases(rng, bindir, n):
                 ls.append(w if rng.random() < .7 else rng.choice([b"20120304", b"86400", b"121314", b"2012060"]))
             out.append(([T("dconv"), "-i", dfmt, "-S"], b"\n".join(ls) + b"\n", "needleless-sed"))
             continue
+        if rng.random() < .05:
+            # well-formed compound expressions: conjunctions over alternatives are multiplied out, with copies of sub-trees
+            def ex(depth):
+                r_ = rng.random()
+                if depth <= 0 or r_ < .3:
+                    return rng.choice(["%d=1", "%d=5", "%m=3", "%m>6", "%Y=2012", "%u!=7", "%a=Mon", ">=2012-01-01", "<2012-06-30T12:00:00",
+                                       "%d<=09", "%j=060", "%H=12"])
+                if r_ < .4:
+                    return "!" + ex(depth - 1) if rng.random() < .5 else "!(" + ex(depth - 1) + ")"
+                op = rng.choice([" && ", " || ", "&&", "||"])
+                return "(" + op.join(ex(depth - 1) for _ in range(rng.choice([2, 2, 3, 4, 5]))) + ")"
+            e = rng.choice([" && ", " || "]).join(ex(rng.choice([1, 2, 3])) for _ in range(rng.choice([1, 2, 3])))
+            ls = "\n".join(gen.rand_value_text(rng) for _ in range(6)) + "\n2012-03-01\n2012-03-05T12:00:00\n"
+            out.append(([T("dgrep")] + (["-v"] if rng.random() < .2 else []) + ["--", e], ls.encode("utf-8", "surrogateescape"), "dgrep-compound"))
+            continue
+        if rng.random() < .03:
+            # the directory of the zone maps comes from the environment: lengths around PATH_MAX, with and without a map name
+            # that still fits
+            n_ = rng.choice([4096, 4095, 4097, 4094, 4090, 4080, 255, 256, 257, 8192, 1]) + rng.choice([0, 0, 0, -1, 1])
+            spec = rng.choice(["iata:FRA", "x:y", "icao:EDDF", "a" * rng.choice([1, 5, 200]) + ":K", ":", "m:"])
+            out.append((["/usr/bin/env", "TZMAP_DIR=/" + "a" * max(0, n_ - 1), T(rng.choice(["dconv", "dadd", "dzone", "dround"])),
+                         "--zone" if rng.random() < .7 else "--from-zone", spec, "2012-01-01T00:00:00", "+1d"], b"", "tzmap-dir-length"))
+            continue
+        if rng.random() < .06:
+            # literal text that ends within a few bytes of the printers' buffers (256 bytes and powers of two), then a field
+            L = rng.choice([120, 128, 225, 240, 250, 256, 500, 512, 1010, 1024, 4080]) + rng.randrange(-12, 13)
+            spec = rng.choice(["%T", "%S", "%d", "%F", "%FT%T", "%Y-%m-%d", "%dd %S", "%db", "%s", "%rS", "%A", "%B %dth", "%H:%M:%S.%N", "%Z", "%OY"])
+            f3 = rng.choice(["x", "-", "ab ", "%%", "€"]) * max(1, L) + spec
+            tool = rng.choice(["ddiff", "ddiff", "dconv", "dadd", "dround", "dseq", "dzone"])
+            if tool == "ddiff":
+                av = [T("ddiff"), "-f", f3, "1970-01-01T00:00:00", rng.choice(["2020-01-01T00:00:00", "1969-12-31T23:59:59", "4000-01-01T01:02:03"])]
+            elif tool == "dconv":
+                av = [T("dconv"), "-f", f3, rng.choice(["2012-03-04T12:13:14", "2012-03-04", "12:13:14"])]
+            elif tool == "dadd":
+                av = [T("dadd"), "-f", f3, "2012-03-04T12:13:14", "+1d"]
+            elif tool == "dround":
+                av = [T("dround"), "-f", f3, "2012-03-04T12:13:14", "Mon"]
+            elif tool == "dseq":
+                av = [T("dseq"), "-f", f3, "2012-03-04", "2012-03-06"]
+            else:
+                av = [T("dconv"), "--zone", "Europe/Berlin", "-f", f3, "2012-03-04T12:13:14"]
+            out.append((av, b"", "edge-format"))
+            continue
         if rng.random() < .06:
             # backslash escapes in formats (-e)
             f2 = (fmt if isinstance(fmt, bytes) else fmt.encode("utf-8", "surrogateescape")) + rng.choice([b"\\", b"\\n", b"\\t\\", b"\\q"])
